@@ -21,6 +21,7 @@ fn has_cfg_only_phys(c: &Cfg) -> bool {
         Cfg::Phys => true,
         Cfg::Alt(c, _) => has_cfg_only_phys(c),
         Cfg::Ovl(ls) => ls.iter().all(|(c, _)| has_cfg_only_phys(c)),
+        Cfg::OvlShared(c, _) => has_cfg_only_phys(c),
     }
 }
 
@@ -101,8 +102,9 @@ pub fn check_op_error(cfg: &Cfg, op: &Op, pre: &Model, e: &ErrInfo, acc: &mut Ac
             Class::EmptyDir | Class::NonEmptyDir => want_kind(cfg, op.name(), &clsig, &paths, &[Kind::DirExists], e, acc, mk),
             _ => {}
         },
-        Op::CopyFile(..) | Op::MoveFile(..) | Op::CopyDir(..) | Op::MoveDir(..) => {
-            if c == Class::Absent && dclass == Some(Class::Absent) {
+        Op::CopyFile(s, d) | Op::MoveFile(s, d) | Op::CopyDir(s, d) | Op::MoveDir(s, d) => {
+            // destination equal to / inside the source is left unspecified (the operation creates its own "source")
+            if c == Class::Absent && dclass == Some(Class::Absent) && s != d && !is_under(d, s) {
                 want_kind(cfg, op.name(), &clsig, &paths, &[Kind::NotFound], e, acc, mk);
             }
         }
